@@ -308,6 +308,26 @@ func c13Transforms(b c13Base, lines []pline) []c13Variant {
 			out = append(out, c13Variant{fmt.Sprintf("ctx-to-pair@%d", i), n})
 		}
 	}
+	// T9: trailing blanks / tabs after the code of a body line (each line, and all at once)
+	for i, l := range lines {
+		if l.Region != "body" || len(l.Text) < 2 {
+			continue
+		}
+		for k, ws := range []string{" ", "\t", "  \t "} {
+			n := append([]pline{}, lines...)
+			n[i] = pline{l.Text + ws, "body"}
+			out = append(out, c13Variant{fmt.Sprintf("trail-ws%d@%d", k, i), n})
+		}
+	}
+	{
+		n := append([]pline{}, lines...)
+		for i, l := range n {
+			if l.Region == "body" && len(l.Text) >= 2 {
+				n[i].Text = l.Text + " "
+			}
+		}
+		out = append(out, c13Variant{"trail-ws-all", n})
+	}
 	// all body lines re-indented at once
 	{
 		n := append([]pline{}, lines...)
